@@ -102,10 +102,10 @@ PROPS["C17"] = P(["codec"],
     not_covered=["MultiLineCodec::encode", "the plugin driver loop (src/cln_plugin/mod.rs)", "logging writer"])
 
 PROPS["C19"] = P(["config", "provider"],
-    "Proof (Verus) on the E6 slice of main() that converts and validates the options (src/main.rs, from the first cp.option(..) to the mpp_timeout conversion): it refuses to start iff a value is out of its target range or policy delta <= safety delta; otherwise safety delta, advertised/enforced policy, MPP timeout, self-route-hint flag, payment timeout and xpay equal the configured values (options are distinct opaque tokens, so a swapped option is a failed obligation). PayPaymentProvider::new caps the retry time at 65535 s.",
-    "Trusted: " + TB_COMMON + " env/config_env.rs (ConfiguredPlugin::option returns the value CLN delivered: uninterpreted cfg_*; E11: option descriptors become opaque distinct tokens, name/default/description dropped). The statements of main() that thread the converted values into HtlcManagerParams / PayPaymentProvider::new (struct literal with field-init shorthand) are not under contract.",
+    "Proof (Verus) on two E6 slices of main() (src/main.rs): (a) from the first cp.option(..) to the construction of the payment provider, (b) the statement that builds HtlcManager::new(HtlcManagerParams{..}): it refuses to start iff a value is out of its target range or policy delta <= safety delta; otherwise safety delta, advertised/enforced policy, MPP timeout, self-route-hint flag, payment timeout and xpay equal the configured values (options are distinct opaque tokens, so a swapped option is a failed obligation). PayPaymentProvider::new caps the retry time at 65535 s.",
+    "Trusted: " + TB_COMMON + " env/config_env.rs (ConfiguredPlugin::option returns the value CLN delivered: uninterpreted cfg_*; E11: option descriptors become opaque distinct tokens, name/default/description dropped). HtlcManager::new is verified to store the parameters as given; PayPaymentProvider::new enters under its contract (proved in unit provider). The statements of main() between the two slices (block watcher start, store, e-mail service) are not under contract; that the locals flowing from slice (a) into slice (b) are the same is plain data flow of main() (no reassignment), checked by rustc's immutability (the locals are not `mut`).",
     assumptions=["CLN delivers the option values (handle_init) as configured"],
-    not_covered=["the wiring statements after the slice (HtlcManagerParams literal, PayPaymentProvider::new call)"])
+    not_covered=["statements of main() between the two slices"])
 
 PROPS["C20"] = P(["height"],
     "Proof (Verus): update_height leaves the shared cell at max(value found under the lock, new height) = the maximum of all heights told so far, never lower than before; new_block, poll_height and current_height reach the cell only through update_height / a read under the same mutex. Holds under every interleaving because the update is one critical section and every other updater guarantees the same postcondition. The catch-up bound is not applicable.",
